@@ -91,6 +91,12 @@ func histRepo() *ref.Repo {
 func histConfig(suite ref.Suite) ref.Config {
 	cfg := defaultConfig()
 	cfg.Repo = histRepo()
+	// several pages per entity, so that a reply can disagree with an earlier page
+	cfg.DCMISensors = map[byte][]uint16{0x37: {0x0011, 0x0012, 0x0013}, 0x03: {0x0021}, 0x07: {}}
+	cfg.DCMIPageSize = 2
+	// algorithms only the BMC knows: it completes RAKP for them (observable if
+	// the library accepts a suite it cannot compute)
+	cfg.FollowUnknownAlgs = true
 	_ = suite
 	return cfg
 }
@@ -200,6 +206,8 @@ func retryAlphabet(inSession bool, w *World) []histAnswer {
 		{Answer: env.LostReply(), Class: clsNothing},
 		// a UDP datagram with no payload at all
 		rawGarbage("zero-length-datagram", func(t *env.Transport, rx *ref.Rx) []byte { return []byte{} }),
+		// a datagram larger than the 512-byte receive buffer
+		rawGarbage("garbage-600-bytes", func(t *env.Transport, rx *ref.Rx) []byte { return pattern(600, 0xA5, 0) }),
 	}
 	if inSession {
 		a = append(a, rawGarbage("bad-signature", func(t *env.Transport, rx *ref.Rx) []byte {
@@ -238,6 +246,10 @@ type histCfg struct {
 	Discover bool `json:"discover,omitempty"`
 	// FlipLen: length of the authentic reply, for bit-flip/truncation menus.
 	FlipLen int `json:"flip_len,omitempty"`
+	// Prior: before the session under test another session is opened, used
+	// once and closed on the same connection (same suite and credentials); the
+	// BMC hands out distinct session IDs
+	Prior bool `json:"prior,omitempty"`
 	// UDP: run over the library's real transport and a loopback socket
 	// (newWorldUDP) instead of the in-memory transport.
 	UDP bool `json:"udp,omitempty"`
@@ -356,6 +368,11 @@ func handshakeAlphabet(w *World) []histAnswer {
 
 func runHistory(cfg histCfg, ch *env.Chooser) *histObs {
 	bcfg := histConfig(cfg.Suite)
+	sid := bcfg.SIDC
+	if cfg.Prior {
+		bcfg.DistinctSIDs = true
+		sid++
+	}
 	var w *World
 	if cfg.UDP {
 		var err error
@@ -370,6 +387,18 @@ func runHistory(cfg histCfg, ch *env.Chooser) *histObs {
 	w.T.MaxAttempts = 300 // per operation, the handshake included: a correct retry loop ends long before
 	var conn bmc.Connection = w.Conn
 	var sess *bmc.V2Session
+	if cfg.InSession && cfg.Prior {
+		guard(func() {
+			if s0, err := w.Conn.NewV2Session(w.Ctx, &bmc.V2SessionOpts{
+				SessionOpts:  bmc.SessionOpts{Username: "hist", Password: bcfg.Password, MaxPrivilegeLevel: ipmi.PrivilegeLevelAdministrator},
+				CipherSuites: histPrefs(cfg),
+			}); err == nil {
+				s0.GetDeviceID(w.Ctx)
+				s0.Close(w.Ctx)
+			}
+		})
+		w.quiesce()
+	}
 	if cfg.InSession {
 		var err error
 		if cfg.HSAlphabet != "" {
@@ -418,7 +447,7 @@ func runHistory(cfg histCfg, ch *env.Chooser) *histObs {
 			return o
 		}
 		o.SessOK = true
-		if bs := w.BMC.Sessions[bcfg.SIDC]; bs != nil && bs.Active {
+		if bs := w.BMC.Sessions[sid]; bs != nil && bs.Active {
 			o.KeysOK = string(sess.SIK) == string(bs.SIK) && string(sess.K(1)) == string(bs.K1) && string(sess.K(2)) == string(bs.K2)
 		}
 		if w.Ctx.Err() != nil {
@@ -426,7 +455,7 @@ func runHistory(cfg histCfg, ch *env.Chooser) *histObs {
 		}
 		conn = sess
 		o.SessRemoteID, o.SessLocalID = sess.RemoteID, sess.LocalID
-		o.BS = w.BMC.Sessions[bcfg.SIDC]
+		o.BS = w.BMC.Sessions[sid]
 	}
 	o.HandshakeExchanges = len(w.T.Log)
 	alphaFn := histAlphabets[cfg.Alphabet]
